@@ -344,3 +344,7 @@ def run(pm, ctx):
     run_decisions(pm, ctx, 'C20-RD', OWN['C20'])
     from .. import exprdrift
     exprdrift.run(pm, ctx, 'C20-RE', OWN['C20'])
+    from ..conddrift import run_calls
+    run_calls(pm, ctx, 'C20-RC', OWN['C20'])
+    from .. import memo
+    memo.run(pm, ctx, 'C20-MK', OWN['C20'])
